@@ -68,7 +68,10 @@ pub struct Interpreter<TStdlib: Stdlib, TStdIn: Input, TStdOut: Printer, TLpt1: 
     /// Temporarily holds byref values that are to be copied back to the calling context
     by_ref_stack: VecDeque<Variant>,
 
-    function_result: Option<Variant>,
+    /// Results of the functions that have returned and whose by-ref arguments are
+    /// being stored back; storing into an array element evaluates its indices
+    /// again, and an index may call a function of its own, hence a stack
+    function_result: Vec<Variant>,
 
     value_stack: Vec<Variant>,
 
@@ -166,11 +169,11 @@ impl<TStdlib: Stdlib, TStdIn: Input, TStdOut: Printer, TLpt1: Printer> Interpret
     }
 
     fn take_function_result(&mut self) -> Option<Variant> {
-        self.function_result.take()
+        self.function_result.pop()
     }
 
     fn set_function_result(&mut self, v: Variant) {
-        self.function_result = Some(v);
+        self.function_result.push(v);
     }
 
     fn var_path_stack(&mut self) -> &mut VecDeque<Path> {
@@ -333,7 +336,7 @@ impl<TStdlib: Stdlib, TStdIn: Input, TStdOut: Printer, TLpt1: Printer>
             user_defined_types,
             var_path_stack: VecDeque::new(),
             by_ref_stack: VecDeque::new(),
-            function_result: None,
+            function_result: vec![],
             value_stack: vec![],
             statement_depths: vec![(0, 0)],
             nesting_bases: vec![NestingBase {
@@ -372,7 +375,7 @@ impl<TStdlib: Stdlib, TStdIn: Input, TStdOut: Printer, TLpt1: Printer>
             return_address_stack: self.return_address_stack.len(),
             go_sub_address_stack: self.go_sub_address_stack.len(),
             stacktrace: self.stacktrace.len(),
-            has_function_result: self.function_result.is_some(),
+            has_function_result: !self.function_result.is_empty(),
             last_error_code: self.last_error_code,
             has_last_error_address: self.last_error_address.is_some(),
         }
